@@ -162,6 +162,9 @@ class Sandbox:
         except TimeoutError as timeout_exception:
             _verif_sync('timeout_handler')
             self._stop_patches()
+            # The abandoned execution also pushed its stdout buffer
+            if self._current_stdout:
+                self._current_stdout.pop()
             self._capture_exception(timeout_exception, sys.exc_info(),
                                     code, filename)
             return self
